@@ -70,6 +70,8 @@ pub fn alphabet(doc: &PDoc, ty: &str, tyname: Option<&str>, thorough: bool) -> V
 pub struct Space<'a> {
     pub doc: &'a PDoc,
     pub thorough: bool,
+    /// also all pairs of fields over the first values of their alphabets (C05/C06 thorough)
+    pub pairs: bool,
 }
 
 impl<'a> Space<'a> {
@@ -146,6 +148,21 @@ impl<'a> Space<'a> {
         for (f, vals) in m.fields.iter().zip(&per_field) {
             for v in vals {
                 out.push(PMsg(vec![(f.num, v.clone())]));
+            }
+        }
+        if self.pairs && depth > 0 {
+            for i in 0..m.fields.len() {
+                for j in i + 1..m.fields.len() {
+                    let (fi, fj) = (&m.fields[i], &m.fields[j]);
+                    if fi.label == "oneof" && fj.label == "oneof" && fi.oneof == fj.oneof {
+                        continue;
+                    }
+                    for a in per_field[i].iter().take(4) {
+                        for b in per_field[j].iter().take(4) {
+                            out.push(PMsg(vec![(fi.num, a.clone()), (fj.num, b.clone())]));
+                        }
+                    }
+                }
             }
         }
         // rows: field i takes its value number (row + i) mod len; one member per oneof group
